@@ -93,7 +93,7 @@ def check_template(rep, c, t, el, has_bp):
 def run(rep, tier, seed):
     rng = random.Random(seed * 1000003 + 20)
     quick = tier == "quick"
-    n = 1200 if quick else 30000
+    n = 4000 if quick else 30000
     mg = GM.ModelGen(rng, 4, 7, 14)
     cases = []
     for i in range(n):
